@@ -13,10 +13,12 @@ CHECKS = {
     "C01": ("model_checking", "4.3, 7 C01",
             "TLC model-checks that the recursive matcher MI equals the literal wording of C01 and is window-independent "
             "(MC_C01) on the whole universe; the same universe (all item lists x all listings x the 4 flag settings) is "
-            "executed on the real code in 9 modes and every observation is validated by TLC against the spec (Trace_Match).",
+            "executed on the real code in 9 modes and every observation is validated by TLC against the spec (Trace_Match); plus "
+            "seeded random patterns whose scope TLC checks itself.",
             "TLA+ spec (JasmPattern MI/MO) + TLC exhaustive small-scope universe; replay into real code; TLC trace validation"),
     "C02": ("model_checking", "7 C02",
-            "MC_C02: times lo..hi == union of r-fold unrolling for every repeated node kind; universe of every node kind x "
+            "MC_C02: times lo..hi == union of r-fold unrolling for every repeated node kind; MC_Compile: the compile scheme as "
+            "implemented refines the semantics on the encoded stream (control with the pinned schemes must fail); universe of every node kind x "
             "every bound pair x both YAML spellings x run listings executed on the code and validated by TLC.",
             "TLA+ spec (MIN/MIS unrolling law) + TLC; exhaustive bounded universe replayed into the code; TLC trace validation"),
     "C03": ("model_checking", "7 C03",
@@ -64,7 +66,8 @@ CHECKS = {
             "JasmSession (process-global configuration written by Construct, read by Match) model-checked with Atomic = TRUE; "
             "control with Atomic = FALSE must fail; every history of <= MaxOps complete operations over 9 rule documents is "
             "replayed in one real process, each operation compared with the same operation in a fresh process, and every "
-            "history trace is validated by TLC against JasmSession's actions (Trace_Session).",
+            "history trace is validated by TLC against JasmSession's actions (Trace_Session); the inductive core is also "
+            "discharged by Apalache for unbounded histories (extra evidence).",
             "TLA+ state machine JasmSession + TLC; all histories replayed in real processes; TLC trace validation"),
     "C15": ("model_checking", "4.6, 7 C15",
             "JasmBinary (Argv, abstract Objdump) model-checked; for assembled objects x every sections list of the spec's "
@@ -100,7 +103,8 @@ CHECKS = {
     "C07": ("model_checking", "7 C07",
             "Every reported text must be string-equal to whole records of the stream TLC validated (C07_Aligned), every address "
             "must be the first covered instruction's (C07_Addr); every operator in leading position, items with fewer/equal/more "
-            "operand patterns than operands, with and without the shipped @any, both match modes.",
+            "operand patterns than operands, with and without the shipped @any, both match modes; the executions of the repository's "
+            "own test configuration are validated the same way (Trace_Repo, rule trees inlined and parsed by TLC).",
             "TLA+ spec (JasmScan + Encode) + TLC; universe replay; TLC trace validation of alignment and addresses"),
     "C11": ("model_checking", "4.4, 7 C11",
             "MC_Scan: the scan state machine (Report/Finish) is sound w.r.t. ValidScan and has the consequences C11 lists, for "
